@@ -86,3 +86,15 @@ CASES += [
     t("copy made with numpy.array", R + "lindbladform.py",
       "            KK = sbi.KK.copy()", "            KK = numpy.array(sbi.KK)"),
 ]
+
+RT7 = "quantarhei/qm/liouvillespace/redfieldtensor.py"
+CASES += [
+    {"name": "apply() conjugates by plain transposition (the repaired defect)", "kind": "mutant", "rule": "C07-H", "edits": [
+        (RT7, "                Kd[mm, :, :] = numpy.conj(numpy.transpose(Km[mm, :, :]))", "                Kd[mm, :, :] = numpy.transpose(Km[mm, :, :])", 1)]},
+    {"name": "apply() keeps the conjugates in a real array", "kind": "mutant", "rule": "C07-H", "edits": [
+        (RT7, "            Kd = numpy.zeros(Km.shape, dtype=Km.dtype)\n            Nm = Km.shape[0]\n            ven =", "            Kd = numpy.zeros(Km.shape, dtype=numpy.float64)\n            Nm = Km.shape[0]\n            ven =", 1)]},
+    {"name": "conversion to the tensor form conjugates by plain transposition", "kind": "mutant", "rule": "C07-H", "edits": [
+        (RT7, "            Kd = numpy.conj(numpy.transpose(Km[m,:,:]))", "            Kd = numpy.transpose(Km[m,:,:])", 1)]},
+    {"name": "conjugate written with the method idiom", "kind": "twin", "edits": [
+        (RT7, "            Kd = numpy.conj(numpy.transpose(Km[m,:,:]))", "            Kd = Km[m,:,:].conj().T", 1)]},
+]
